@@ -5,49 +5,33 @@ Ltac Zify.zify_post_hook ::= Z.div_mod_to_equations.
 
 (* ---------------------------------------------------------------------------------------- *)
 (* canon *)
-Lemma canon_minus_P : canon (- P) = P.
-Proof. vm_compute. reflexivity. Qed.
-
-Lemma canon_refuted : exists w, canon w = P.
-Proof. exists (- P). exact canon_minus_P. Qed.
-
-Lemma canon_partial w : ~ (w < 0 /\ (P | w)) -> 0 <= canon w < P.
+Lemma canon_range w : 0 <= canon w < P.
 Proof.
-  intros Hside. unfold canon.
-  pose proof P_pos as HP.
+  unfold canon. pose proof P_pos as HP.
   pose proof (Z.mod_pos_bound (Z.abs w) P HP) as Hr.
-  destruct (w <? 0) eqn:Hneg.
-  - apply Z.ltb_lt in Hneg.
-    assert (Hnz : Z.abs w mod P <> 0).
-    { intros H0. apply Hside. split; [exact Hneg|].
-      apply Z.mod_divide in H0; [|lia].
-      apply (proj1 (Z.divide_abs_r _ _)) in H0. exact H0. }
-    lia.
-  - exact Hr.
+  destruct (w <? 0); cbn [andb]; [|exact Hr].
+  destruct (Z.abs w mod P =? 0) eqn:H0; cbn [negb]; [exact Hr|].
+  apply Z.eqb_neq in H0. lia.
 Qed.
 
-(* the side condition is exact: on the excluded words the result is P *)
-Lemma canon_bad w : w < 0 -> (P | w) -> canon w = P.
+(* it is the field representative of w *)
+Lemma canon_mod w : canon w = w mod P.
 Proof.
-  intros Hneg Hdiv. unfold canon.
-  apply Z.ltb_lt in Hneg. rewrite Hneg.
-  assert (H0 : Z.abs w mod P = 0).
-  { apply Z.mod_divide; [pose proof P_pos; lia|]. apply (proj2 (Z.divide_abs_r _ _)). exact Hdiv. }
-  rewrite H0. lia.
-Qed.
-
-(* where canonical, it is the field representative of w *)
-Lemma canon_mod w : ~ (w < 0 /\ (P | w)) -> canon w = w mod P.
-Proof.
-  intros Hside. pose proof (canon_partial w Hside) as Hrange.
-  unfold canon in *. pose proof P_pos as HP.
-  destruct (w <? 0) eqn:Hneg.
-  - apply Z.ltb_lt in Hneg.
-    rewrite Z.abs_neq in * by lia.
-    apply (Z.mod_unique_pos w P (- ((- w) / P) - 1) (P - (- w) mod P)); [lia|].
-    pose proof (Z.div_mod (- w) P ltac:(lia)) as Hdm. lia.
+  pose proof (canon_range w) as Hrange. unfold canon in *. pose proof P_pos as HP.
+  destruct (w <? 0) eqn:Hneg; cbn [andb] in *.
+  - apply Z.ltb_lt in Hneg. rewrite Z.abs_neq in * by lia.
+    destruct (- w mod P =? 0) eqn:H0; cbn [negb] in *.
+    + apply Z.eqb_eq in H0. rewrite H0.
+      apply (Z.mod_unique_pos w P (- ((- w) / P)) 0); [lia|].
+      pose proof (Z.div_mod (- w) P ltac:(lia)) as Hdm. lia.
+    + apply (Z.mod_unique_pos w P (- ((- w) / P) - 1) (P - (- w) mod P)); [lia|].
+      pose proof (Z.div_mod (- w) P ltac:(lia)) as Hdm. lia.
   - apply Z.ltb_ge in Hneg. rewrite Z.abs_eq by lia. reflexivity.
 Qed.
+
+(* regression for the boundary that used to give P *)
+Lemma canon_negative_multiples : canon (- P) = 0 /\ canon (- (2 * P)) = 0 /\ canon (- P - 1) = P - 1.
+Proof. vm_compute. repeat split; reflexivity. Qed.
 
 (* ---------------------------------------------------------------------------------------- *)
 (* selectors *)
